@@ -66,7 +66,8 @@ CHECKS = {
                 "2^60). scale-stats is compared with the chunk files / "
                 "shard-index entries and decoded byte sizes of datasets "
                 "produced by the real command sequence over a product of "
-                "sizes x types x channels x chunk targets x storage options.",
+                "sizes x types x channels x chunk targets x storage options."
+                " The dataset directory carries different names (also ones ending in characters of '/info', a trailing slash).",
         "note": "Counts are integers; the dataset product is small volumes "
                 "(<= 33 voxels per axis); chunk files are recognised by the "
                 "documented names only.",
@@ -125,7 +126,8 @@ CHECKS = {
                 "shard files must be byte-identical per subset across "
                 "orders and across the in-memory and on-disk buffering "
                 "strategies (on-disk replayed per subset, ascending and "
-                "descending, all permutations for <= 4 chunks).",
+                "descending, all permutations for <= 4 chunks)."
+                " A huge-grid family stores and fetches chunks whose identifiers exceed 2^32 and 2^53 (9 grids of 2^33..2^63 chunks x 7 store orders x both strategies, absent probes interleaved).",
         "note": "One write session per scale, each chunk stored once; "
                 "minishards of at most 9 chunks; no separate model - the "
                 "transition relation is the implementation.",
@@ -209,7 +211,8 @@ CHECKS = {
                 "reversed iff det < 0, signed volume sign. Scripts: GIFTI "
                 "conversion (mm to nm, info mesh key, mismatching "
                 "--mesh-dir refused, transforms) and fragment-link tables "
-                "(exact file set and JSON).",
+                "(exact file set and JSON)."
+                " Transforms given on the command line include re-centring a mesh 1000 mm from the origin and non-dyadic shears (float64 reference).",
         "note": "Trusts DESIGN.md App. A.4/A.5; vertex positions compared "
                 "with stated float tolerances.",
     },
@@ -321,7 +324,8 @@ CHECKS = {
                 "whole full-resolution scale is read back through a fresh "
                 "accessor and compared voxel by voxel with the volume the "
                 "orientation code designates; slice counts below, equal to "
-                "and not divisible by the chunk depth occur on every axis.",
+                "and not divisible by the chunk depth occur on every axis."
+                " A share of the cases runs through main(argv) of slices-to-precomputed (default orientation omitted, channel directories whose command-line order is not lexicographic, codes in lower / mixed case).",
         "note": "Volumes of at most 6x2x9 voxels (small-scope: axis "
                 "permutation, flip and window bugs show there).",
     },
@@ -342,7 +346,8 @@ CHECKS = {
                 "4-D x2 / x3 / RGB x full/mmap with position-coded voxels "
                 "(index map out[c,z,y,x] = in[x,y,z,c]); (C) raw / "
                 "compressed_segmentation 8^3, 2^3 / JPEG x 4 file layouts + "
-                "3 sharding configurations.",
+                "3 sharding configurations."
+                " Part of the value cases runs through main(argv) of volume-to-precomputed; ranges include descending ones (inverted contrast).",
         "note": "Volumes of at most 9x4x3 voxels; uint64 targets with "
                 "min/max mapping are compared within one unit of float64 "
                 "precision (documented limitation of the tool).",
@@ -365,7 +370,8 @@ CHECKS = {
                 "equal the package's downscaler applied to the whole "
                 "previous level. An exception is accepted only outside the "
                 "envelope the computation supports; outside the envelope a "
-                "normal return must still be correct.",
+                "normal return must still be correct."
+                " A share of the cases (all methods / outside values / auto selection x 3 storages, and hand-made scale pairs) runs through main(argv) of compute-scales, where a refusal must be a non-zero exit status.",
         "note": "Volumes of at most 700 voxels; the downscaler itself is "
                 "C07's business.",
     },
@@ -417,7 +423,8 @@ CHECKS = {
                 "every scale of both datasets is decoded through fresh "
                 "handles: destination == exact conversion of the decoded "
                 "source, destination info as requested, source tree hash "
-                "unchanged, exit status 0.",
+                "unchanged, exit status 0."
+                " Command-line spellings: destination as path, file:// or precomputed://file:// URL; --compresslevel omitted or 0..9.",
         "note": "Volumes of 5x4x3 voxels; the destination info has the "
                 "source's geometry (documented precondition).",
     },
@@ -447,7 +454,8 @@ CHECKS = {
                 "data-writing command repeated on its own output leaves the "
                 "decoded contents unchanged; scale-stats changes nothing; "
                 "and the all-in-one state equals the step-by-step state "
-                "(info and voxels of every scale).",
+                "(info and voxels of every scale)."
+                " Option sets include --outside-value 0, ranges through the default lower bound and descending ranges.",
         "note": "Volumes of at most 130x20x40 voxels; the all-in-one "
                 "command has no --sharding option, so that equality is "
                 "checked for unsharded option sets only.",
